@@ -139,6 +139,9 @@ func (c *Ctx) classifyLoop(fd *ast.FuncDecl, s ast.Stmt) (string, string) {
 		if l.Cond == nil {
 			return "", "unconditional loop"
 		}
+		if l.Init == nil && l.Post == nil && c.isWhileCounted(l) {
+			return "counted", "while-form counted loop: a conjunct bounds the variable by a constant and every iteration ends by stepping it towards the bound"
+		}
 		if sx := c.strNonEmpty(l.Cond); sx != nil {
 			if why := c.stringDrain(fd, l, sx); why == "" {
 				return "string-drain", "every iteration that continues replaces " + sx.Name() + " by a strictly shorter remainder of itself (strings.Cut / CutPrefix with a non-empty separator)"
@@ -738,4 +741,111 @@ func (c *Ctx) stringDrain(fd *ast.FuncDecl, l *ast.ForStmt, x types.Object) stri
 		return "a continue sits where the analysis did not look"
 	}
 	return ""
+}
+
+// isWhileCounted: `for v > k && .. { ..; v-- }` (or v < bound .. v++ with an unassigned
+// bound): no continue in the body, the last statement of the body steps v towards the bound
+// by a positive constant, and no other statement of the body moves v away from it.
+func (c *Ctx) isWhileCounted(f *ast.ForStmt) bool {
+	if len(f.Body.List) == 0 {
+		return false
+	}
+	var o types.Object
+	up := false
+	switch last := f.Body.List[len(f.Body.List)-1].(type) {
+	case *ast.IncDecStmt:
+		id, ok := unparen(last.X).(*ast.Ident)
+		if !ok {
+			return false
+		}
+		o, up = c.Obj(id), last.Tok == token.INC
+	case *ast.AssignStmt:
+		if len(last.Lhs) != 1 || len(last.Rhs) != 1 {
+			return false
+		}
+		id, ok := unparen(last.Lhs[0]).(*ast.Ident)
+		k, isC := c.ConstInt(last.Rhs[0])
+		if !ok || !isC || k <= 0 {
+			return false
+		}
+		switch last.Tok {
+		case token.ADD_ASSIGN:
+			up = true
+		case token.SUB_ASSIGN:
+			up = false
+		default:
+			return false
+		}
+		o = c.Obj(id)
+	default:
+		return false
+	}
+	v, ok := o.(*types.Var)
+	if !ok || v.IsField() || v.Parent() == c.Types.Scope() {
+		return false
+	}
+	if b, ok := v.Type().Underlying().(*types.Basic); !ok || b.Info()&types.IsInteger == 0 {
+		return false
+	}
+	bounded := false
+	boundObjs := map[types.Object]bool{}
+	for _, cj := range conjuncts(f.Cond) {
+		be, ok := unparen(cj).(*ast.BinaryExpr)
+		if !ok {
+			continue
+		}
+		id, ok := unparen(be.X).(*ast.Ident)
+		if !ok || c.Obj(id) != o {
+			continue
+		}
+		if !up && (be.Op == token.GTR || be.Op == token.GEQ) || up && (be.Op == token.LSS || be.Op == token.LEQ) {
+			bounded = true
+			ast.Inspect(be.Y, func(n ast.Node) bool {
+				if bid, ok := n.(*ast.Ident); ok {
+					if bv, ok := c.Obj(bid).(*types.Var); ok {
+						boundObjs[bv] = true
+					}
+				}
+				return true
+			})
+		}
+	}
+	if !bounded {
+		return false
+	}
+	okBody := true
+	ast.Inspect(f.Body, func(n ast.Node) bool {
+		switch x := n.(type) {
+		case *ast.FuncLit:
+			okBody = false
+		case *ast.BranchStmt:
+			if x.Tok == token.CONTINUE || x.Tok == token.GOTO {
+				okBody = false
+			}
+		case *ast.AssignStmt:
+			for _, l := range x.Lhs {
+				if lid, ok := unparen(l).(*ast.Ident); ok {
+					lo := c.Obj(lid)
+					if lo == o && n != ast.Node(f.Body.List[len(f.Body.List)-1]) {
+						okBody = false
+					}
+					if boundObjs[lo] && x.Tok != token.DEFINE {
+						okBody = false
+					}
+				}
+			}
+		case *ast.IncDecStmt:
+			if lid, ok := unparen(x.X).(*ast.Ident); ok && c.Obj(lid) == o && up != (x.Tok == token.INC) {
+				okBody = false
+			}
+		case *ast.UnaryExpr:
+			if x.Op == token.AND {
+				if lid, ok := unparen(x.X).(*ast.Ident); ok && c.Obj(lid) == o {
+					okBody = false
+				}
+			}
+		}
+		return true
+	})
+	return okBody
 }
